@@ -327,6 +327,126 @@ for g in GROUPS:
     mk()
 
 
+# --- dispatch: the API reaches the result ONLY through the autograd Function whose backward is under contract -------------------------
+# The Jacobian convention of C04 lives in the hand-written backward of the Functions (C04.{cls}.backward).  A caller inherits it only if
+# the group-typed argument flows into the result through Function.apply and nowhere else - for every broadcast shape class the glue
+# accepts (one transform on a cloud, a batch of transforms on one point, ...).  sym: the Function is replaced by an abstract one
+# (fresh output symbols); the result must be exactly those symbols and the Function must have been given the (broadcast) arguments.
+# num (replay / validation): autograd of the real call against central differences of the left perturbation.
+for g in GROUPS:
+    def mk(g=g):
+        a = S.ALG[g]
+        @obligation(f'C04.{g}.api_glue.dispatch', functions=[f'{LT}:{g}Type.Act', f'{LT}:{g}Type.Mul', f'{LT}:{g}Type.Adj', f'{LT}:{g}Type.AdjT',
+                                                             f'{LT}:LieTensor.Act', f'{LT}:LieTensor.__matmul__', f'{LT}:LieTensor.__mul__', f'{OPS}:broadcast_inputs'],
+                    max_paths=8, timeout=300, first_path_only=True, tol=1e-4,
+                    note='value-independent clause: the glue branches on types and shapes only; one feasible path')
+        def dispatch(env):
+            ltm = env.load(LT); pp = env.load('pypose'); T = env.T
+            dof = S.DOF[g]; D = dof + 1
+            X = group_elem(env, g, 'X', qregimes=GEN)
+            Xb = T.stack([group_elem(env, g, 'X0', qregimes=GEN), group_elem(env, g, 'X1', qregimes=GEN)], 0)
+            P = T.stack([env.vec('p0', 3, regimes=GEN), env.vec('p1', 3, regimes=GEN)], 0); pt = env.vec('p', 3, regimes=GEN)
+            H = T.stack([env.vec('h0', 4, regimes=GEN), env.vec('h1', 4, regimes=GEN)], 0)
+            Ab = T.stack([alg_elem(env, g, 'a0', regimes=GEN), alg_elem(env, g, 'a1', regimes=GEN)], 0)
+            L = lambda Z: lie(pp, g, Z); A_ = lambda z: alg(pp, g, z)
+            cases = [       # (name, Function, call(Z) with the group argument Z, the group argument, the other argument, width of the result)
+                ('one transform on a cloud of 3-vectors (Act)', f'{g}_Act', lambda Z: L(Z).Act(P), X, P, 3),
+                ('one transform on a cloud of 3-vectors (@)', f'{g}_Act', lambda Z: L(Z) @ P, X, P, 3),
+                ('one transform on a cloud of 3-vectors (*)', f'{g}_Act', lambda Z: L(Z) * P, X, P, 3),
+                ('one transform on a batch of clouds', f'{g}_Act', lambda Z: L(Z).Act(T.stack([P, P + 1], 0)), X, T.stack([P, P + 1], 0), 3),
+                ('one transform on a cloud of 4-vectors', f'{g}_Act4', lambda Z: L(Z).Act(H), X, H, 4),
+                ('a batch of transforms on one point', f'{g}_Act', lambda Z: L(Z).Act(pt), Xb, pt, 3),
+                ('a column of transforms on a row of points', f'{g}_Act', lambda Z: L(Z).unsqueeze(-2).Act(P), Xb, P, 3),
+                ('one transform times a batch of transforms', f'{g}_Mul', lambda Z: (L(Z) @ L(Xb)).Act(pt), X, Xb, D),
+                ('a batch of transforms times one transform', f'{g}_Mul', lambda Z: (L(Xb) @ L(Z)).Act(pt), X, Xb, D),
+                ('Adj of one transform on a batch of algebra elements', f'{g}_AdjXa', lambda Z: raw(L(Z).Adj(A_(Ab))), X, Ab, dof),
+                ('AdjT of one transform on a batch of algebra elements', f'{g}_AdjTXa', lambda Z: raw(L(Z).AdjT(A_(Ab))), X, Ab, dof),
+            ]
+            for nm, fname, call, Z, other, width in cases:
+                name = f'{nm}: X reaches the result through {fname}.apply only'
+                if not env.sym:
+                    z0 = Z.reshape(-1)          # no_graph_cut differentiates w.r.t. a 1-d tensor; group-typed rows perturbed one at a time below
+                    if Z.dim() == 1:
+                        env.no_graph_cut(name, call, Z, group=g)
+                    else:
+                        env.no_graph_cut(name, lambda z: call(T.stack([z, Z[1]], 0)), Z[0], group=g)
+                    continue
+                from pvc import storch as st
+                st_flat = lambda u: list(st._T(u)._a.flat)
+                rec = []
+                real = getattr(ltm, fname)
+                class Fake:
+                    @staticmethod
+                    def apply(*args):
+                        n = 1
+                        for d_ in args[-1].shape[:-1]: n *= d_
+                        out = env.fresh_matrix(f'y{len(rec)}_{fname}_{abs(hash(nm)) % 9973}_', n, width).reshape(tuple(args[-1].shape[:-1]) + (width,))
+                        rec.append((args, out)); return out
+                env.stub(ltm, fname, Fake)
+                others = {}
+                if fname.endswith('_Mul'):      # the trailing .Act(pt) of the Mul programs: abstract too (keeps the result a function of Mul's output only)
+                    class FakeAct:
+                        @staticmethod
+                        def apply(Xa, pa):
+                            others['act_arg'] = Xa; return pa
+                    env.stub(ltm, f'{g}_Act', FakeAct)
+                try:
+                    res = call(Z)
+                finally:
+                    setattr(ltm, fname, real)
+                same = lambda u, v: tuple(u.shape) == tuple(v.shape) and all(x.same(y) for x, y in zip(st_flat(u), st_flat(v)))
+                ok = len(rec) == 1
+                if ok:
+                    args, out = rec[0]
+                    through = others['act_arg'] if fname.endswith('_Mul') else res
+                    ok = same(through.reshape(-1, width), out.reshape(-1, width))
+                    # the Function is given the group argument itself (each broadcast row is one of its rows) in one of its operand slots
+                    rows = [r for r in Z.reshape(-1, D)]
+                    given = [arg for arg in args if arg.shape[-1] == D]
+                    ok = ok and any(all(any(same(r_, zr) for zr in rows) for r_ in arg.reshape(-1, D)) for arg in given)
+                if ok: env.holds(name, True)
+                else:       # a structural sufficient condition: its failure is a violation only with a failing input of the real code (needs_cex)
+                    env._record(name, 'failed', {'needs_cex': True, 'reason': f'{len(rec)} call(s) of {fname}.apply; result is not (only) its output'})
+    mk()
+
+
+@obligation('C04.jacrev.arguments', functions=['pypose.func.jac:jacrev'], max_paths=4, first_path_only=True, no_validate=True,
+            note='torch.func.jacrev by contract (a recorder): pp.func.jacrev documents "the exact same functionality"')
+def jacrev_arguments(env):
+    """pp.func.jacrev(func, argnums, has_aux=, chunk_size=) hands every one of its arguments to torch.func.jacrev - in particular argnums,
+    keyword or positional, so that "every input gets its Jacobian".  Concrete twin: the Jacobians w.r.t. argument 1 and w.r.t. (0, 1) of
+    an SE3 action against autograd of the plain function."""
+    T = env.T
+    if env.sym:
+        from pvc import storch as st
+        import inspect
+        jac = env.load('pypose.func.jac')
+        seen = []
+        def torch_jacrev(func, argnums=0, *, has_aux=False, chunk_size=None, _preallocate_and_copy=False):
+            seen.append(dict(func=func, argnums=argnums, has_aux=has_aux, chunk_size=chunk_size)); return lambda *a, **k: ('jacobian', argnums)
+        st.set_external('func.jacrev', torch_jacrev)
+        env.stub(jac, 'retain_ltype', lambda *a, **k: (lambda fn: fn))       # the ltype-retaining context is C06's contract (C06.retain_ltype_faults)
+        f = lambda x, y: x
+        out1 = jac.jacrev(f, argnums=1)(1, 2); out2 = jac.jacrev(f, (0, 1), has_aux=True, chunk_size=5)(1, 2); out3 = jac.jacrev(f)(1, 2)
+        env.holds('argnums given by keyword reaches torch.func.jacrev', len(seen) >= 1 and seen[0]['argnums'] == 1 and seen[0]['func'] is f)
+        env.holds('argnums given positionally (a tuple), has_aux and chunk_size reach torch.func.jacrev',
+                  len(seen) >= 2 and seen[1]['argnums'] == (0, 1) and seen[1]['has_aux'] is True and seen[1]['chunk_size'] == 5)
+        env.holds('the default is argument 0', len(seen) >= 3 and seen[2]['argnums'] == 0 and seen[2]['has_aux'] is False)
+        env.holds('the wrapper returns what the torch function returns', out1 == ('jacobian', 1) and out2 == ('jacobian', (0, 1)) and out3 == ('jacobian', 0))
+        return
+    import pypose as pp
+    X = pp.randn_SE3(dtype=T.float64); p = T.randn(3, dtype=T.float64)
+    f = lambda x, y: x.Act(y)
+    Rm = X.matrix()[:3, :3]
+    J1 = pp.func.jacrev(f, argnums=1)(X, p)
+    env.eq('argnums given by keyword reaches torch.func.jacrev', J1, Rm)
+    J01 = pp.func.jacrev(f, (0, 1))(X, p)
+    env.holds('argnums given positionally (a tuple), has_aux and chunk_size reach torch.func.jacrev',
+              isinstance(J01, tuple) and len(J01) == 2 and tuple(J01[1].shape) == (3, 3) and bool(T.allclose(J01[1], Rm)) and tuple(J01[0].shape) == (3, 7))
+    J0 = pp.func.jacrev(f)(X, p)
+    env.holds('the default is argument 0', tuple(J0.shape) == (3, 7))
+
+
 @obligation('C04.canary.right_perturbation', functions=[f'{OPS}:SE3_Act.backward'], canary=True)
 def canary(env):
     """a right-perturbation Jacobian must be refuted"""
